@@ -431,6 +431,14 @@ def run_recycle(case: Dict[str, Any]) -> CaseInfo:
         tag = {"backend": be, "limit": "max_requests"}
         if res.serve_exc is not None:
             raise Violation("serve_raised", repr(res.serve_exc), **tag)
+        cfg_after = getattr(res, "config", None)
+        if cfg_after is not None and (cfg_after.max_requests, cfg_after.max_requests_jitter) != (
+                m, j):
+            # a replacement worker is started from the same Config: it must find the limits
+            # the user configured, not the previous worker's draw
+            raise Violation("config_changed_by_worker", f"max_requests={m}, jitter={j} became "
+                            f"{cfg_after.max_requests}, {cfg_after.max_requests_jitter} after "
+                            f"one worker run (draw {case['draw']})", **tag)
         if calls != [(0, j)]:
             raise Violation("jitter_range_wrong", f"randint called with {calls}, expected "
                             f"[(0, {j})]", **tag)
